@@ -12,10 +12,13 @@ theorem qset_ofList_union (a b : List Quirk) : (QSet.ofList a).union (QSet.ofLis
   funext q; simp [QSet.union, QSet.ofList]
 
 theorem gen_tcpSignaturesMatch (s : Sig) (p : PSig) (d : Int) : Gen.tcpSignaturesMatch s p d = tcpMatch s p d := by
-  unfold Gen.tcpSignaturesMatch tcpMatch maskedQ quirkStep windowBad v4Only v6Only
-  simp only [qset_ofList_union, List.cons_append, List.nil_append, optInt_bne_wild, optInt_beq_wild, optInt_bne_cast,
-    optBoolInt_bne_wild, optBoolInt_bne_bool, natCast_beq_ofNat, fmod_natCast, natCast_bne_zero]
-  grind
+  first
+  | exact rfl
+  | (unfold Gen.tcpSignaturesMatch tcpMatch maskedQ quirkStep windowBad v4Only v6Only
+     simp only [qset_ofList_union, List.cons_append, List.nil_append, optInt_bne_wild, optInt_beq_wild, optInt_bne_cast,
+       optBoolInt_bne_wild, optBoolInt_bne_bool, natCast_beq_ofNat, natCast_bne_ofNat, fmod_natCast, natCast_bne_zero,
+       natCast_beq_cast, natCast_bne_cast]
+     grind)
 
 /-- **C01 against the source text**: `tcp_signatures_match` as printed from the working tree follows the
     declarative p0f matching rules, for every signature, packet signature and `max_dist`. -/
